@@ -1,3 +1,4 @@
+import Gtree.Generated.Heap.Arena
 import Gtree.Lemmas.HeapZipper
 import Gtree.Model.Programmable
 /-
